@@ -10,6 +10,10 @@
     the abstract module (tags, constructed bits, minimal lengths and integers,
     BOOLEAN FF, BIT STRING padding, named-bit trailing zeros, DEFAULT
     omission, SET order, SET OF order).
+  * Round 5 (c03_setof.py): SET OF over element types without one fixed tag
+    (untagged CHOICE directly / through references / nested, ANY): corpus and
+    generator of values that separate the sort keys, and the emitted element
+    order against the literal comparison of X.690 11.6 (Ber/X690SetOf.v).
 """
 import json
 
@@ -19,6 +23,7 @@ import lib
 import gen_asn1
 import codec_ber as cb
 import codec_der as cd
+import c03_setof
 
 CORR_IMPORTS = ['Base.Prelude', 'Syntax.Asn1', 'Ber.Header', 'Ber.BerCommon', 'Ber.DerImpl', 'Ber.BerImpl', 'Ber.BerCorr',
                 'Ber.X690', 'Ber.BerScope', 'Ber.BerAcceptBase', 'Ber.BerAcceptD']
@@ -458,19 +463,37 @@ def run(ctx):
     ctx.rule = ('cases: (module tagging default, type shape incl. tags/optionality/additions, numeric_enums, outcome '
                 'class); decode cases add the input kind (valid, valid+tail, 9 malformed kinds); distinct by those '
                 'keys; non-trivial = type AST size >= 3 or encoding longer than 127 octets or malformed input')
+    # helper layer regenerated from the source (translator/pyfun.py) BEFORE the theorems are checked against it
+    import pyfun_tie
+    _tie = pyfun_tie.run_tie(ctx, budget=400)
     ok = ctx.coq_props()
+    pyfun_tie.report(ctx, _tie, functions=['encode_length_definite', 'encode_signed_integer', 'encode_tag', 'encode_object_identifier_subidentifier'])
+
     ctx.trusted_base += [
         'Ber/X690.v: my formalisation of X.690 / X.680 tagging from memory, pinned by the byte-for-byte comparison with /repo',
         'harness/codec_ber.py: independent tag calculator, TLV parser and DER structure checks',
+        'Ber/X690SetOf.v: the literal comparison of X.690 11.6 (padded_le / setof_ascending), evaluated on the element '
+        'encodings the harness TLV walk finds in the library output',
         'proposed_fixes/C03-*.diff, C04-*.diff: the model follows the repaired behaviour; on the unrepaired tree the check reports violations']
     known_findings(ctx)
     mods, cases = gen_cases(ctx, 45 if ctx.quick else 500, 3)
-    ctx.log('%d modules, %d (type, value) cases' % (len(mods), len(cases)))
+    n_general = len(cases)
+    # round 5: SET OF over element types without one fixed tag (c03_setof.py); the same pipeline, the decoder
+    # correspondence on the valid outputs only
+    c03_setof.add_cases(ctx, Case, mods, cases, 30 if ctx.quick else 400, 2)
+    ctx.log('%d modules, %d (type, value) cases (%d of them SET OF over multi-tag elements)' % (
+        len(mods), len(cases), len(cases) - n_general))
     batch = Batch(ctx, mods)
     enc = corr_encode(ctx, batch, cases)
-    corr_decode(ctx, batch, cases, enc, 2 if ctx.quick else 4)
+    corr_decode(ctx, batch, cases[:n_general], enc[:n_general], 2 if ctx.quick else 4)
+    corr_decode(ctx, batch, cases[n_general:], enc[n_general:], 0 if ctx.quick else 1)
     pt_der(ctx, batch, cases, enc)
     pt_real_der(ctx, 100 if ctx.quick else 3000)
+    # DER REAL canonical form: Coq model (Ber/Real.v, C03_der_real_canonical) vs ber.encode_real / decode_real
+    import real_model
+    ctx.extra['real_model'] = real_model.run_real(ctx, 120 if ctx.quick else 1500, 620 if ctx.quick else 1400)
+    c03_setof.pt_setof_any(ctx, 60 if ctx.quick else 1500)
+    c03_setof.ascending_checks(ctx, cases, enc)
     scope_checks(ctx, batch, cases, 'enc')
     batch.run()
     ctx.extra['open_theorems'] = OPEN
